@@ -612,3 +612,8 @@ def replay(ctx, data):
             print("header #%d: verdict=%s decoded=%s pcm=%s (wanted %s, %s)\n%s" % (i, verdict, vp, dpcm, target, pcm, h))
     print("property violated on this input:", bool(bad))
     return 1 if bad else 0
+
+
+def digest_conf(obj):
+    import vlib
+    return vlib.digest(obj)
